@@ -308,7 +308,7 @@ def shard_main(check: Check, tier: str, seed: int, shard: int, nshards: int, onl
 
         # address-space ceiling per shard (children such as the libFuzzer engine lift it again: the hard limit is untouched)
         _soft, hard = resource.getrlimit(resource.RLIMIT_AS)
-        resource.setrlimit(resource.RLIMIT_AS, (3 * 2**30, hard))
+        resource.setrlimit(resource.RLIMIT_AS, (6 * 2**30, hard))
     except Exception:  # noqa: BLE001
         pass
     res = []
@@ -342,6 +342,7 @@ def _env() -> dict:
     env["PYTHONHASHSEED"] = "0"
     env["TZ"] = "UTC"
     env["ALEKSUL_REPID_VERIF"] = "1"
+    env.setdefault("MALLOC_ARENA_MAX", "2")  # (thread-heavy cases: glibc would reserve 64 MiB of address space per thread)
     env.setdefault("PYTHONWARNINGS", "ignore")
     return env
 
